@@ -24,6 +24,9 @@ def run(ctx):
     ctx.rule("R04-5", "every dup2 call site is in the post-fork Child region")
     ctx.rule("R04-6", "here-string: the parent writes the word, then a newline constant, into the pipe the child "
                       "has dup2'ed onto descriptor 0")
+    ctx.rule("R04-7", "the here-string pipe's read end is still the descriptor pipe() returned when the child "
+                      "installs it: between fork and dup2(here_string.0, 0) the child performs no operation on a "
+                      "number the shell released at an earlier stage (pipes[idx-1].1)")
     for crate in ctx.crates:
         opener_rule(ctx, crate)
         body = crate.fn("core::run_single_program")
@@ -38,6 +41,15 @@ def run(ctx):
         error_rules(ctx, crate, body, child)
         dup2_region_rule(ctx, crate, body, child)
         here_string_rule(ctx, crate, body, child)
+        from .. import plumb
+        from .c08 import stale_rule
+        m = plumb.Model(crate, body)
+        if ctx.require(m.s.ok(), "R04-7", "R04-7|anchor|slots",
+                       "cannot identify the plumbing parameters of run_single_program by type", body.path):
+            pl = crate.fn("core::run_pipeline")
+            pm = plumb.PipelineModel(crate, pl) if pl is not None else None
+            m.single_builtin_has_no_capture_pipes = bool(pm is not None and pm.ok() and pm.verify_lemmas()["L4"])
+            stale_rule(ctx, crate, body, m, "R04-7")
 
 
 def child_region(body):
